@@ -248,7 +248,7 @@ def c05(ctx):
 @prop("C06")
 def c06(ctx):
     reader_check(ctx, "C06", (4, "{0}", "Buf_none", "{TRUE, FALSE}", "Maxes_both"),
-                 ["reader:docs", "reader:mutate", "reader:suffixes", "reader:enc_nested"], gen_args=(3, "{0}", "{TRUE, FALSE}"),
+                 ["reader:docs", "reader:mutate", "reader:suffixes", "reader:enc_nested", "reader:sizes", "reader:prefixed"], gen_args=(3, "{0}", "{TRUE, FALSE}"),
                  thorough_mc_args=(5, "{0}", "Buf_none", "{TRUE, FALSE}", "Maxes_2"))
     ctx.rule = "one evaluation = one strict run judged by the shadow-stack monitor P_C06 (well-nested, chain valid per declared path, contained in known-size masters, End exactly at exhaustion, Ends at end of input); distinct as for C03"
 
@@ -256,7 +256,7 @@ def c06(ctx):
 @prop("C07")
 def c07(ctx):
     reader_check(ctx, "C07", (4, "{0, 2}", "Buf_none", "{TRUE}", "Maxes_2"),
-                 ["reader:enc_nested", "reader:enc", "reader:mutate"], gen_args=(3, "{0, 2}", "{TRUE}"),
+                 ["reader:enc_nested", "reader:enc", "reader:mutate", "reader:sizes", "reader:prefixed"], gen_args=(3, "{0, 2}", "{TRUE}"),
                  thorough_mc_args=(5, "{0, 2}", "Buf_none", "{TRUE}", "Maxes_2"))
     ctx.rule = "one evaluation = one run; cases of the enc drivers hold one all-known-size run plus one run per (sampled) subset of masters encoded with unknown size, compared at the end of the case; the monitor checks every End against ClosedBy / exhaustion / EOF; non-trivial = run with >= 1 result"
 
